@@ -26,6 +26,10 @@ func read(c io.Reader) (data []byte, err error) {
 
 	data = make([]byte, l)
 	if _, err := io.ReadFull(c, data); err != nil {
+		if err == io.EOF {
+			// The stream ended right after the length prefix: a truncated frame, not a clean end between frames.
+			err = io.ErrUnexpectedEOF
+		}
 		return nil, err
 	}
 	return data, nil
